@@ -71,7 +71,7 @@ func r16_1(c *Ctx, rule string) {
 	}{{"include-miss", "the include patterns do not match the entry", f.inc, false}, {"exclude-hit", "an exclude pattern matches the entry", f.exc, true}} {
 		ex := c.explorer(f.copy)
 		ex.From = e.call
-		ex.Assume = map[string]bool{e.call.Name() + "#0": e.verdict, f.cdCall.Name() + "#0": false}
+		ex.Assume = map[string]bool{c.reg(e.call) + "#0": e.verdict, c.reg(f.cdCall) + "#0": false}
 		ex.Target = func(in ssa.Instruction, st *eng.State) bool { return isWrite(in) }
 		ex.StopAtTarget = true
 		h := ex.Run()
@@ -86,7 +86,7 @@ func r16_1(c *Ctx, rule string) {
 		}
 	}
 	// liveness: a selected entry does reach the writers
-	c.ObReachable(rule, c.name(f.copy)+"/selected-is-written", f.copy, map[string]bool{f.inc.Name() + "#0": true, f.exc.Name() + "#0": false}, c.callPred("copy.copyFile"), "copyFile", "the entry is selected")
+	c.ObReachable(rule, c.name(f.copy)+"/selected-is-written", f.copy, map[string]bool{c.reg(f.inc) + "#0": true, c.reg(f.exc) + "#0": false}, c.callPred("copy.copyFile"), "copyFile", "the entry is selected")
 	// copyDirectory with include=false
 	var incParam *ssa.Parameter
 	for _, p := range f.copyDir.Params {
@@ -144,7 +144,7 @@ func r16_2(c *Ctx, rule string) {
 	}
 	cpd := c.checkedCallPred("copy.(*copier).createParentDirs")
 	c.ObPrecedes(rule, c.name(f.copy)+"/ancestors-before-content", f.copy, nil, cpd, c.callPred(nonDirCreators...), "a checked createParentDirs", "creating a file, link, symlink or device")
-	c.ObPrecedes(rule, c.name(f.copy)+"/ancestors-before-directory", f.copy, map[string]bool{f.inc.Name() + "#0": true, f.exc.Name() + "#0": false}, cpd, func(in ssa.Instruction) bool { return in == ssa.Instruction(f.cdCall) }, "a checked createParentDirs", "copying a selected directory")
+	c.ObPrecedes(rule, c.name(f.copy)+"/ancestors-before-directory", f.copy, map[string]bool{c.reg(f.inc) + "#0": true, c.reg(f.exc) + "#0": false}, cpd, func(in ssa.Instruction) bool { return in == ssa.Instruction(f.cdCall) }, "a checked createParentDirs", "copying a selected directory")
 	// push / pop of the record
 	isPush := func(in ssa.Instruction) bool {
 		s, ok := in.(*ssa.Store)
@@ -183,6 +183,7 @@ func r16_3(c *Ctx, rule string) {
 	if fn == nil {
 		return
 	}
+	defer c.scope(fn)()
 	base := c.name(fn)
 	var cdo *ssa.Call
 	for _, call := range c.P.CallsTo(fn, "copy.copyDirectoryOnly") {
@@ -207,7 +208,7 @@ func r16_3(c *Ctx, rule string) {
 		b, isC := eng.ConstBool(s.Val)
 		return isC && b
 	}
-	created := map[string]bool{cdo.Name() + "#0": true, "(" + cdo.Name() + "#1==nil)": true}
+	created := map[string]bool{c.reg(cdo) + "#0": true, "(" + c.reg(cdo) + "#1==nil)": true}
 	for _, e := range []struct{ what, callee string }{{"copyFileInfo", "copy.(*copier).copyFileInfo"}, {"copyXAttrs", "copy.copyXAttrs"}} {
 		chk := c.checkedCallPred(e.callee)
 		ex := c.explorer(fn)
@@ -231,7 +232,7 @@ func r16_3(c *Ctx, rule string) {
 	// marked before moving on
 	ex := c.explorer(fn)
 	ex.From = cdo
-	ex.Assume = map[string]bool{"(" + cdo.Name() + "#1==nil)": true}
+	ex.Assume = map[string]bool{"(" + c.reg(cdo) + "#1==nil)": true}
 	ex.Barrier = func(in ssa.Instruction, st *eng.State) bool { return isMark(in) }
 	ex.Target = func(in ssa.Instruction, st *eng.State) bool {
 		return ex.IsSuccessReturn(in, st) || in == ssa.Instruction(cdo)
